@@ -194,6 +194,13 @@ struct InstF {
             long double lim[] = {(long double)std::numeric_limits<T>::max(), (long double)std::numeric_limits<T>::lowest()};
             for (long double a : lim) { anchors.push_back(a); anchors.push_back(a / f); }
         }
+        // the limits of the narrower floating types: values that are far inside S's range but outside float's / double's -- an
+        // intermediate that is narrower than the rep would misjudge exactly these
+        {
+            long double narrow[] = {(long double)std::numeric_limits<float>::max(), (long double)std::numeric_limits<double>::max(), (long double)std::numeric_limits<float>::min(),
+                                    (long double)std::numeric_limits<double>::min(), 1e306L, 1e1000L, 1e-1000L, 1e4000L};
+            for (long double a : narrow) for (long double b : {a, -a, a / f, -a / f, a * 4, a / f * 4}) if (std::fabs(b) < (long double)L::max() / 8 && (b == 0 || std::fabs(b) > (long double)L::min() * 8)) anchors.push_back(b);
+        }
         for (long double a : anchors) {
             S x = (S)a, up = x, dn = x;
             one(x, true);
@@ -204,7 +211,7 @@ struct InstF {
         one((S)-0.0, true); one(L::epsilon(), true);
         for (int i = 0; i < o.nrandom; ++i) {
             uint64_t r = rng.next();
-            int ex = (int)(rng.next() % 150) - 40;
+            int ex = (i % 7 == 3) ? (int)(rng.next() % (uint64_t)(L::max_exponent - L::min_exponent - 8)) + L::min_exponent + 4 : (int)(rng.next() % 150) - 40;
             S x = (S)std::ldexp((long double)(r >> 11) / 9007199254740992.0L, ex);
             if (rng.next() & 1) x = -x;
             switch (i % 4) {
